@@ -152,6 +152,19 @@ class RelPath(SVal):
 LINKTXT = z3.Function("symlink_text", S, S)  # definition: LINKTXT(t) = "symlink:" ++ t  (unfolded where the code concatenates exactly these two)
 
 
+class MaybeTarget(SVal):
+    """what rel_symlink returns: None iff the link leads outside, else the target relative to the directory"""
+
+    def __init__(self, p_t):
+        self.p_t = p_t
+
+    def py_is_none(self, cx):
+        return OUTSIDE(self.p_t)
+
+    def py_str(self, cx):
+        return RelStr(TARGET(self.p_t))
+
+
 class RelStr(SStr):
     def py_radd(self, cx, left):
         if left == "symlink:":
@@ -205,7 +218,7 @@ class DirHashsums(FnSpec):
         return None
 
     def init(self):
-        self.bindings["rel_symlink"] = lambda cx, d, p: SMaybe(OUTSIDE(p.t), RelPath(TARGET(p.t)))
+        self.bindings["rel_symlink"] = lambda cx, d, p: MaybeTarget(p.t)
 
         def tree_inv(a, proc, extra_dirs=None):
             t = a.trie
@@ -213,7 +226,9 @@ class DirHashsums(FnSpec):
             p, x = z3.String(fresh_name("ip")), z3.String(fresh_name("ix"))
             leaflike = lambda q: z3.Or(isfile(q), IS_SYM(q))  # noqa: E731
             return [
-                ("processed-entries-present", z3.ForAll([p], z3.Implies(z3.Select(proc, p), z3.And(z3.Implies(leaflike(p), z3.And(t.leaf.has(REL(p)), t.leaf.get_term(REL(p)) == expected_leaf(alg, p), z3.Implies(IS_SYM(p), z3.Not(OUTSIDE(p))))), z3.Implies(realdir(p), t.dirs.has(REL(p))))))),
+                ("processed-files-and-links-present", z3.ForAll([p], z3.Implies(z3.And(z3.Select(proc, p), leaflike(p)), z3.And(t.leaf.has(REL(p)), t.leaf.get_term(REL(p)) == expected_leaf(alg, p))))),
+                ("processed-links-stay-inside", z3.ForAll([p], z3.Implies(z3.And(z3.Select(proc, p), IS_SYM(p)), z3.Not(OUTSIDE(p))))),
+                ("processed-directories-present", z3.ForAll([p], z3.Implies(z3.And(z3.Select(proc, p), realdir(p)), t.dirs.has(REL(p))))),
                 ("leaves-are-processed-files-or-links", z3.ForAll([x], z3.Implies(t.leaf.has(x), z3.And(a.entries.has(DIR_AT(x)), z3.Select(proc, DIR_AT(x)) if extra_dirs is None else z3.Or(z3.Select(proc, DIR_AT(x))), REL(DIR_AT(x)) == x, leaflike(DIR_AT(x)))))),
                 ("directories-are-listed-real-directories", z3.ForAll([x], z3.Implies(t.dirs.has(x), z3.And(a.entries.has(DIR_AT(x)), REL(DIR_AT(x)) == x, realdir(DIR_AT(x)))))),
             ]
@@ -237,7 +252,8 @@ class DirHashsums(FnSpec):
                 ("cursor-at-the-prefix-walked-so-far", z3.And(z3.BoolVal(isinstance(cur, DictCursor) and cur.trie is a.trie), z3.And(z3.Implies(r == DOT, cur.prefix_t == DOT), z3.Implies(r != DOT, cur.prefix_t == PFX(r, it.i))) if isinstance(cur, DictCursor) else False)),
                 ("walked-prefixes-are-directories", z3.ForAll([j], z3.Implies(z3.And(r != DOT, 1 <= j, j <= it.i), t.dirs.has(PFX(r, j))))),
                 ("leaves-untouched", z3.ForAll([x], z3.And(t.leaf.has(x) == l1.has(x), t.leaf.get_term(x) == l1.get_term(x)))),
-                ("only-walked-prefixes-added-as-directories", z3.ForAll([x], t.dirs.has(x) == z3.Or(d1.has(x), z3.And(r != DOT, z3.Exists([j], z3.And(1 <= j, j <= it.i, x == PFX(r, j))))))),
+                ("directories-kept", z3.ForAll([x], z3.Implies(d1.has(x), t.dirs.has(x)))),
+                ("only-walked-prefixes-added-as-directories", z3.ForAll([x], z3.Implies(z3.And(t.dirs.has(x), z3.Not(d1.has(x))), z3.And(r != DOT, z3.Exists([j], z3.And(1 <= j, j <= it.i, x == PFX(r, j))))))),
             ]
 
         self.loops[0] = LoopSpec(inv_outer, modifies=["path"], havoc_inplace=["ret.ghost_dirs", "ret.ghost_leaf"])
